@@ -48,4 +48,27 @@ pure("C33",
      {"evaluations": 1000000, "heights_tabulated": 1000000, "unlock_ok": 100000},
      shards_quick=5, shards_thorough=5, budget_quick=15, budget_thorough=120)
 
+
+
+pure("C25",
+     "differential monitor: Runestone::decipher vs a reference decipherer written from the specification (own script walker, LEB128 decoder, message parser, flaw precedence); encipher→decipher round-trip; checked and release builds; Miri",
+     "Exploration: millions of generated runestones (full-domain fields, 0-64 edicts), integer-sequence mutations aimed at every flaw, byte- and script-level damage, random scripts; exhaustive sweeps of single tags 0..130 x flag sets, single flag bits 0..127, and every opcode after the magic number. All ten flaws are observed in every run (counters artifact_cen_*).",
+     "well-formed runestones (edicts over few/many ids incl. u64::MAX blocks, all etching/terms subsets, divisibility<=38, spacers<=MAX, valid symbols, non-overflowing supply, valid mint/pointer) enciphered into a transaction with 0-3 outputs before/after and deciphered; the same integer sequence mutated (16 mutation kinds) and re-encoded with random push opcodes/chunking; random scripts. distinct = (input class, artifact shape: flaw / edict count / presence bits).",
+     {"evaluations": 200000, "roundtrip_ok": 20000, "artifact_cen_Opcode": 100, "artifact_cen_InvalidScript": 100, "artifact_cen_Varint": 100, "artifact_cen_TruncatedField": 100,
+      "artifact_cen_TrailingIntegers": 100, "artifact_cen_EdictRuneId": 100, "artifact_cen_EdictOutput": 100, "artifact_cen_SupplyOverflow": 100, "artifact_cen_UnrecognizedFlag": 100, "artifact_cen_UnrecognizedEvenTag": 100},
+     budget_quick=15)
+
+pure("C31",
+     "totality / accept-by-overflow monitor: every text parser run on grammar-directed and damaged strings under overflow checks, result compared with per-notation reference grammars evaluated in arbitrary precision; release build repeats it (wrap-around shows as a wrong accepted value)",
+     "Exploration over strings: structured generation around each notation (component values at 0, max, max±1, 2^32, 2^64, 2^128, 40-400 digits, signs, leading zeros, NaN/inf/1e400, names of 0-40 letters, spacers everywhere) plus junk insertion. Parsers: Sat (integer, decimal, degree, percentile, name), Rune, SpacedRune, RuneId, Decimal (+to_integer), SatPoint, InscriptionId, Outgoing. Explorer URL queries are exercised through the same FromStr impls, not over HTTP. A parser rejecting a denoting string is not a violation of this property.",
+     "for each generated string: panic => violation; Ok(v) where the reference grammar says the string denotes nothing or another value => violation. distinct = (parser, outcome class, length, punctuation count).",
+     {"evaluations": 200000, "sat-degree_accept": 500, "sat-percentile_accept": 200, "decimal_accept": 2000, "spaced-rune_accept": 2000, "outgoing_accept": 500, "satpoint_accept": 1000, "inscription-id_accept": 1000},
+     miri=False, budget_quick=15)
+
+pure("C34",
+     "round-trip monitor Pile::to_string -> Decimal::from_str -> to_integer, and differential check of Decimal parsing/conversion against exact rational arithmetic; checked and release builds",
+     "Exploration: all divisibilities 0..=38 x amounts {0,1,10^k±1,u128::MAX,…} enumerated, random amounts; decimal strings with up to 60 integer digits, up to 300 fractional digits, trailing zeros up to 300, divisibility 0..=255.",
+     "Pile{a,d}.to_string() minus the symbol must denote a/10^d exactly and parse back to a at divisibility d; Decimal::from_str(s) must hold (value,scale) denoting s; to_integer(d) = Ok(x) only if x is exactly the denoted number of base units. distinct = (kind, divisibility, bit length / outcome class).",
+     {"evaluations": 200000, "pile_roundtrip_ok": 50000, "decimal_accept": 2000, "decimal-to-integer_accept": 1000},
+     miri=False, budget_quick=15)
 NOT_APPLICABLE = {}
